@@ -36,3 +36,76 @@ Theorem C14_unchanged_tree_writes_no_blocks :
       Forall (fun x : op * reply => okop a0 b (fst x)) (fst (fst (run pre (backup_prog pre c src) a0 []))).
 Proof. exact unchanged_tree_no_block_writes. Qed.
 Print Assumptions C14_unchanged_tree_writes_no_blocks.
+
+(* ---- reuse DOES happen: identical addresses, resumed entries ---- *)
+From Coq Require Import List NArith.
+From CV Require Import Conf Truth E2E Reuse ReuseP.
+Local Open Scope N_scope.
+
+(* General form: from any state the operations maintain, a fault-free backup records, for
+   EVERY source file that has an entry in the basis (the stitched listing of the newest band,
+   complete or not) with the same path, kind, mtime and size whose blocks are all present,
+   the source item's metadata with exactly that entry's addresses. *)
+Theorem C14_backup_reuses_every_matching_basis_entry :
+  forall (pre : bytes -> N) (c : cfg) (src : list sitem) (a0 : arch),
+    Ready pre a0 -> SrcSorted src ->
+    exists tr a1 r,
+      run pre (backup_prog pre c src) a0 [] = (tr, a1, Store.Done r)
+      /\ b_ok r = true /\ b_errors r = 0 /\ b_band r = Some (new_band a0)
+      /\ ReusesAll pre c src a0 a1.
+Proof. exact backup_reuses_basis. Qed.
+Print Assumptions C14_backup_reuses_every_matching_basis_entry.
+
+(* (a) An unchanged tree: the newest version is complete and records every file of the source
+   with its kind, mtime and size; a fault-free backup under ANY configuration succeeds, records
+   for every file exactly the addresses that version has (and nothing else for the path), and
+   writes no block. *)
+Theorem C14_unchanged_tree_records_identical_addresses :
+  forall (pre : bytes -> N) (c : cfg) (src : list sitem) (a0 : arch) (b : N),
+    Ready pre a0 -> SrcSorted src -> newest a0 = Some b -> complete a0 b -> UnchangedSince a0 b src ->
+    exists tr a1 r,
+      run pre (backup_prog pre c src) a0 [] = (tr, a1, Store.Done r)
+      /\ b_ok r = true /\ b_errors r = 0 /\ b_band r = Some (new_band a0)
+      /\ (forall it, In it src -> s_kind (si_e it) = KFile ->
+            exists be, Recorded a0 b be /\ e_apath be = s_apath (si_e it)
+                       /\ Recorded a1 (new_band a0) (reused_entry c it be)
+                       /\ forall e', Recorded a1 (new_band a0) e' -> e_apath e' = s_apath (si_e it) ->
+                                     e' = reused_entry c it be)
+      /\ Forall (fun x => ~ is_block_write (fst x)) tr.
+Proof. exact unchanged_tree_same_addresses. Qed.
+Print Assumptions C14_unchanged_tree_records_identical_addresses.
+
+(* (b) Resume: a backup stopped by ANY fault list (failures, a kill at any point, a torn
+   write) whose band got its head; a fault-free backup of the same source then succeeds and
+   records again, unchanged, EVERY file entry the interrupted band holds in a good hunk. *)
+Theorem C14_resumed_backup_reuses_the_interrupted_entries :
+  forall (pre : bytes -> N) (c : cfg) (src : list sitem) (a0 : arch) (phi : list fault),
+    Ready pre a0 -> SrcSorted src -> SrcValid src -> SrcWF src -> cfg_ok c ->
+    let a1 := snd (fst (run pre (backup_prog pre c src) a0 phi)) in
+    head_opens a1 (new_band a0) = true ->
+    Ready pre a1
+    /\ newest a1 = Some (new_band a0)
+    /\ exists tr a2 r,
+         run pre (backup_prog pre c src) a1 [] = (tr, a2, Store.Done r)
+         /\ b_ok r = true /\ b_errors r = 0 /\ b_band r = Some (new_band a1)
+         /\ forall e, Recorded a1 (new_band a0) e -> e_kind e = KFile -> Recorded a2 (new_band a1) e.
+Proof. exact resumed_backup_reuses_interrupted_entries. Qed.
+Print Assumptions C14_resumed_backup_reuses_the_interrupted_entries.
+
+(* Without "its blocks are present" the general clause is false (a lost block makes the file
+   be stored again, as it should). *)
+Theorem C14_reuse_needs_present_blocks_refuted :
+  let pre := SafeExamples.ex_pre in
+  let c := E2EP.E2EExamples.e5_cfg in
+  let src := E2EP.E2EExamples.e5_src E2EP.E2EExamples.other_b in
+  let a0 := ReuseRefuted.a_bad in
+  let it := ReuseRefuted.it_b in
+  let be := ReuseRefuted.be_b in
+  Startable pre a0 /\ SrcSorted src /\ In it src /\ s_kind (si_e it) = KFile
+  /\ In be (basis_of pre a0) /\ e_apath be = s_apath (si_e it) /\ same_meta (si_e it) be = true
+  /\ blocks_listed_b a0 be = false
+  /\ exists r, snd (run pre (backup_prog pre c src) a0 []) = Store.Done r
+       /\ b_ok r = true /\ b_errors r = 0 /\ b_band r = Some (new_band a0)
+       /\ ~ Recorded (snd (fst (run pre (backup_prog pre c src) a0 []))) (new_band a0) (reused_entry c it be).
+Proof. exact ReuseRefuted.reuse_without_present_blocks_refuted. Qed.
+Print Assumptions C14_reuse_needs_present_blocks_refuted.
